@@ -6,6 +6,19 @@ from .mir import expr_str, walk, callee_is
 ROOK_ORACLE = {(0, 6): ("h1", "f1"), (0, 2): ("a1", "d1"), (7, 6): ("h8", "f8"), (7, 2): ("a8", "d8")}
 
 
+def square_name(x):
+    """'h1' for Square::from("h1") or for the literal Square { rank: 0, file: 7 } (also inside a named constant)."""
+    x = mir.strip_copies(x)
+    if x[0] == "call" and x[1].endswith("From<&str>>::from") and x[2] and x[2][0][0] == "const" and isinstance(x[2][0][1], str):
+        return x[2][0][1]
+    if x[0] == "agg" and isinstance(x[1], str) and x[1].endswith("square::Square") and len(x) > 4:
+        f = dict(zip(x[4], x[3]))
+        r, fl = f.get("rank"), f.get("file")
+        if r and fl and r[0] == "const" and fl[0] == "const" and isinstance(r[1], int) and isinstance(fl[1], int) and 0 <= r[1] < 8 and 0 <= fl[1] < 8:
+            return "abcdefgh"[fl[1]] + str(r[1] + 1)
+    return None
+
+
 def rook_table(ix, key):
     """{(king dest rank, file): (rook from, rook to)} read off the match on the king's destination."""
     b = ix.body(key)
@@ -13,14 +26,13 @@ def rook_table(ix, key):
     out = {}
     for bi, i, s in b.stmts():
         rv = s["rv"]
-        if rv.get("k") != "agg" or rv.get("agg") != "tuple" or len(rv["ops"]) != 2:
+        if not (rv.get("k") == "agg" and rv.get("agg") == "tuple" and len(rv["ops"]) == 2) and not (rv.get("k") == "use" and "const" in rv["a"]):
             continue
         v = sym.rvalue(rv)
-        names = []
-        for x in v[3]:
-            if x[0] == "call" and x[1].endswith("From<&str>>::from") and x[2] and x[2][0][0] == "const":
-                names.append(x[2][0][1])
-        if len(names) != 2:
+        if not (v[0] == "agg" and v[1] == "tuple" and len(v[3]) == 2):
+            continue
+        names = [square_name(x) for x in v[3]]
+        if None in names:
             continue
         rank = file = None
         for text, vals, _d, e in C.constraints_for(ix, b, sym, bi):
